@@ -96,6 +96,9 @@ pub fn oracles_for(prop: &str, c: &Case, impl_result: &str) -> Vec<Verdict> {
         ("C13", Case::Write { shx: _, ctors }) => v.push(extra::oracle_c13(ctors)),
         ("C15", Case::Rhist { target, shp, shx, ops }) | ("C14", Case::Rhist { target, shp, shx, ops }) => v.push(extra::oracle_c15(target, shp, shx.as_deref(), ops)),
         ("C03", Case::Read { .. }) | ("C03", Case::ReadFlat { .. }) | ("C14", Case::ReadFlat { .. }) => v.push(oracle_c07(impl_result)),
+        ("C20", Case::Geo(extra::GeoCase::S2G(c))) => v.push(extra::oracle_c20_shape(c)),
+        ("C20", Case::Geo(extra::GeoCase::G2S(g))) => v.push(extra::oracle_c20_geo(g)),
+        ("C20", Case::Geo(extra::GeoCase::Dims(d, p))) => v.push(extra::oracle_c20_dims(*d, p)),
         ("C08", Case::DbfHist { base, ops }) => v.push(extra::oracle_c08(base, ops)),
         ("C16", Case::Construct(c)) => v.push(oracle_c16(c)),
         ("C16", Case::Ring(d, r, ps)) => v.push(oracle_c16(&Ctor::PolygonRings(*d, vec![(*r, ps.clone())]))),
